@@ -27,6 +27,7 @@ def q(tier, quick, thorough):
     return quick if tier == "quick" else thorough
 
 
+FINDING_KEY = "udp.Forwarder:write-after-idle-close"
 TIMING_KEYS = (":lost", ":not-established", ":not-reestablished", ":setup", "mismatch:udp:code27")
 
 
@@ -40,7 +41,7 @@ def recipe(c: Check):
     n0 = len(c.failures)
     st = c.run_driver("udp", q(c.tier, 240, 3000), shards=q(c.tier, 8, 16), timeout=q(c.tier, 300, 1500))
     # arrival within a time limit is a runtime-residue observation (DESIGN section 3): if ONLY such observations
-    # failed, the run is repeated on the same seed (up to twice) and reported only if it reproduces
+    # failed, the run is repeated on the same seed; it is reported only if it fails three times in a row
     for attempt in (2, 3):
         new = c.failures[n0:]
         if not (new and all(timing_only(f) for f in new)):
@@ -50,7 +51,27 @@ def recipe(c: Check):
         del c.failures[n0:]
         st = c.run_driver("udp", q(c.tier, 240, 3000), shards=q(c.tier, 8, 16), timeout=q(c.tier, 300, 1500))
     if st is not None:
+        # the idle-boundary finding (C03_drop_only_when_full_or_replacing_refuted): the driver replays the model's
+        # witness on the real udp.Forwarder through the gate udp.forwarder.before_write
+        fb = st.get("finding_idle_boundary") or {}
+        gate = False
+        try:
+            gate = "udp.forwarder.before_write" in open(os.path.join(os.environ.get("VERIF_REPO", "/repo"), "pkg/proto/udp/udp.go")).read()
+        except OSError:
+            pass
+        if fb.get("reproduced"):
+            if any(k["key"] == FINDING_KEY for k in c.known_findings() if k["property"] == PID):
+                c.failures.append(dict(key=FINDING_KEY, driver="udp", what=fb.get("what"), case=fb.get("case")))
+            else:
+                # confirmed by replay, reported to the lead; until it is listed in KNOWN_FINDINGS.txt it is shown, not failed
+                c.say("FINDING-REPRODUCED (not yet listed in KNOWN_FINDINGS.txt): property=C03 key=%s %s" % (FINDING_KEY, fb.get("what")))
+                c.notes.append("finding %s reproduced on this run (replay: driver udp part race); not listed in KNOWN_FINDINGS.txt" % FINDING_KEY)
+                c.cov["finding_idle_boundary"] = fb
+        elif gate and fb.get("gate_seen"):
+            c.notes.append("finding %s did not reproduce on this run (the code at the gate no longer loses the datagram)" % FINDING_KEY)
         cnt = c.cov.get("coq_counters", {}).get("udp", {})
+        if gate and cnt.get("NRACE", 0) < 1 and not c.broken:
+            c.broken.append(dict(kind="coverage", name="the idle-boundary replay did not run although the gate is compiled in", detail=str(fb)))
         # sanity of the check itself: the branches the property names must have been reached
         need = dict(NPKT=50, NOVERSIZE=1, NDECERR=5, NFWD=3, NSYS=4, NIDLE=1, NSOCKETS=6, NFULL=1, NCAP=1)
         for k, v in need.items():
@@ -72,6 +93,8 @@ def recipe(c: Check):
              "encryption/compression/tcpMux variants, work connection replaced mid-stream (server-side accessor / relay kill), evaluated by the "
              "monitors C03_holds in Coq and in Go (payload equality, no duplicate, one socket one user, reply to the originating user only, "
              "arrival at light load outside the replacement window, per-user order without replacement). "
+             "Part race: the witness of C03_drop_only_when_full_or_replacing_refuted replayed on the real udp.Forwarder (loop held at the gate "
+             "between mu.Unlock and Write while the socket's real 30 s deadline expires), compared with the lock-granularity model. "
              "distinct = distinct case text; non-trivial = non-empty payload/content",
         assumptions=["encoding/json parser is an oracle constrained pointwise in C03_datagram_roundtrip (it inverts the concrete renderer on the text at hand); the renderer is compared byte for byte on every run",
                      "kernel UDP: loss under overload and ephemeral port reuse are outside the model; the harness runs at light load"])
